@@ -326,6 +326,9 @@ def observe_ops(doc):
                     one = operation.model_copy(update={"request_body": operation.request_body.model_copy(update={"content": {ct: media}})})
                     bl, _ = body_from_data(data=one, schemas=copy.copy(schemas), request_bodies={}, config=config,
                                            endpoint_name=(f"{name}__multi" if multi else name))
+                    if not bl:
+                        bodies.append((ct, "DROPPED"))      # the leaf parser returned neither a Body nor an error for a documented media type
+                        continue
                     b = bl[0]
                     if isinstance(b, ParseError):
                         d = b.detail or ""
@@ -517,7 +520,10 @@ def work(job):
         # ------------------------------------------------ stage B: the endpoint loop
         ops, cols, data = observe_ops(doc)
         if cols is not None:
-            res["terms"].append(("ops", f"ops_case [{'; '.join(c_op(o) for o in ops)}] {c_cols(cols)}" if ops else f"ops_case (@nil operation) {c_cols(cols)}"))
+            if any(x == "DROPPED" for o in ops for _, x in o["bodies"]):
+                res["terms"].append(("ops", "false"))    # body_from_data lost a media type: outside the model's outcome type, a mismatch by definition
+            else:
+                res["terms"].append(("ops", f"ops_case [{'; '.join(c_op(o) for o in ops)}] {c_cols(cols)}" if ops else f"ops_case (@nil operation) {c_cols(cols)}"))
         res["stats"] = {"schemas": len(S), "ops": len(ops), "diags": len(diags), "problems": len(res["problems"])}
     except BaseException as e:  # noqa
         import traceback
